@@ -46,4 +46,63 @@ def simpleBitUnpack (c : Nat) (v : List Nat) : List Int :=
 def bitUnpack (c : Nat) (b : Int) (v : List Nat) : List Int :=
   (groups c 256 (bytesToBits v)).map (fun g => b - (bitsToInteger g : Int))
 
+
+/-- Algorithm 20 `HintBitPack(h)` lines 4-9 for one polynomial: `if h[i]_j ≠ 0 then y[Index] ← j; Index ← Index + 1` -/
+def hintPackPoly : List (Nat × Int) → List Nat → Nat → List Nat × Nat
+  | [], y, index => (y, index)
+  | (j, hij) :: rest, y, index => if hij ≠ 0 then hintPackPoly rest (y.set index j) (index + 1) else hintPackPoly rest y index
+
+/-- Algorithm 20 lines 3-11: the polynomials in order, then `y[ω + i] ← Index` -/
+def hintPackFor (omega : Nat) : List (Nat × List Int) → List Nat → Nat → List Nat
+  | [], y, _ => y
+  | (i, hi) :: rest, y, index =>
+    let (y, index) := hintPackPoly ((List.range 256).zip hi) y index
+    hintPackFor omega rest (y.set (omega + i) index) index
+
+/-- Algorithm 20 `HintBitPack(h)`: a byte string of length `ω + k` -/
+def hintBitPack (omega : Nat) (h : List (List Int)) : List Nat :=
+  hintPackFor omega ((List.range h.length).zip h) (List.replicate (omega + h.length) 0) 0
+
+/-- Algorithm 21 lines 7-14: `while Index < y[ω+i]`: after the first index of a polynomial the indices must strictly increase;
+    `h[i]_{y[Index]} ← 1`.  (`fuel` bounds the iterations; `Index` grows to at most `ω < 256`.) -/
+def hintWhile (y : List Nat) (first limit : Nat) : Nat → Nat → List Int → Option (Nat × List Int)
+  | 0, index, hp => some (index, hp)
+  | fuel + 1, index, hp =>
+    if index < limit then
+      if index > first ∧ y.getD (index - 1) 0 ≥ y.getD index 0 then none
+      else hintWhile y first limit fuel (index + 1) (hp.set (y.getD index 0) 1)
+    else some (index, hp)
+
+/-- Algorithm 21 lines 3-15: `if y[ω+i] < Index or y[ω+i] > ω then return ⊥`, then the while loop -/
+def hintFor (y : List Nat) (omega : Nat) : List Nat → Nat → List (List Int) → Option (Nat × List (List Int))
+  | [], index, acc => some (index, acc.reverse)
+  | i :: is, index, acc =>
+    if y.getD (omega + i) 0 < index ∨ y.getD (omega + i) 0 > omega then none else
+    match hintWhile y index (y.getD (omega + i) 0) 256 index (List.replicate 256 0) with
+    | none => none
+    | some (index', hp) => hintFor y omega is index' (hp :: acc)
+
+/-- Algorithm 21 `HintBitUnpack(y)`; `none` is `⊥`.  Lines 16-20: the bytes from `Index` to `ω - 1` must be zero. -/
+def hintBitUnpack (omega k : Nat) (y : List Nat) : Option (List (List Int)) :=
+  match hintFor y omega (List.range k) 0 [] with
+  | none => none
+  | some (index, h) => if (List.range (omega - index)).any (fun d => y.getD (index + d) 0 ≠ 0) then none else some h
+
+
+/-- Algorithm 27 `sigDecode(σ)`: `σ = c̃ ‖ x_0 ‖ .. ‖ x_{ℓ-1} ‖ y` with `|c̃| = λ/4`, `|x_i| = 32 c` (`c = 1 + bitlen(γ1 - 1)`), `|y| = ω + k`;
+    `z_i ← BitUnpack(x_i, γ1 - 1, γ1)`, `h ← HintBitUnpack(y)` (`none` is `⊥`) -/
+def sigDecode (lam4 l k omega c : Nat) (gamma1 : Int) (sigma : List Nat) : List Nat × List (List Int) × Option (List (List Int)) :=
+  (sigma.take lam4,
+   (List.range l).map (fun i => bitUnpack c gamma1 ((sigma.drop (lam4 + i * (32 * c))).take (32 * c))),
+   hintBitUnpack omega k (sigma.drop (lam4 + l * (32 * c))))
+
+/-- Algorithm 23 `pkDecode(pk)`: `pk = ρ ‖ z_0 ‖ .. ‖ z_{k-1}` with `|ρ| = 32`, `|z_i| = 32 (bitlen(q-1) - d) = 320`;
+    `t1[i] ← SimpleBitUnpack(z_i, 2^{bitlen(q-1)-d} - 1)` -/
+def pkDecode (k : Nat) (pk : List Nat) : List Nat × List (List Int) :=
+  (pk.take 32, (List.range k).map (fun i => simpleBitUnpack 10 ((pk.drop (32 + i * 320)).take 320)))
+
+/-- Algorithm 28 `w1Encode(w1)`: `w̃1 ← w̃1 ‖ SimpleBitPack(w1[i], (q-1)/(2γ2) - 1)` for `i = 0 .. k-1` (`c = bitlen((q-1)/(2γ2) - 1)`) -/
+def w1Encode (c : Nat) (w1 : List (List Int)) : List Nat :=
+  (w1.map (fun r => simpleBitPack c r)).flatten
+
 end Fips204.Spec
